@@ -12,10 +12,18 @@ LEVEL_TEXT = ("(1) Metatheorem SI-sched (Lean): tasks of one launch with pairwis
               "min/max/or) and slot allocation counters are order independent. (2) Kernel-`decide`d on the access table regenerated from every kernel of /repo on every run: the COMPLETE list of "
               "(kernel, array) pairs where the syntactic independence condition fails (25 entries: thread-private loops, equal-value writes of shared ancestors, the level-structured L D L^T "
               "update) and the only mixed-atomic array; anything new breaks the theorem. (3) The real step() is run under permuted task orders of EVERY launch (identity/reverse/affine/rotation) "
-              "through a hook in Warp's CPU launch loop and compared up to round-off and contact/row order.")
-LEVEL_NOTE = ("C11_partial: the justification of the 25 listed pairs is argued in comments and exercised by the schedule oracle, not proved per kernel. Serial task permutations only: no intra-task "
+              "through a hook in Warp's CPU launch loop and compared up to round-off and contact/row order. (4) Consumers of thread-ordered lists (slots handed out by wp.atomic_add, read by a later "
+              "kernel that must not care about the order): scenes with a tactile sensor whose body is touched by >= 2 geoms through multi-contact pairs while slipping (per-body geom list, "
+              "de-duplication in `_sensor_tactile`), touch sensors and contact sensors of every reduce mode (none/mindist/maxforce/netforce, full and truncated slot counts; match list of "
+              "`_contact_match` consumed by `_contact_sort`/`_sensor_acc`) are evaluated by forward() under 8 interleaving task orders; sensordata is compared with the identity order "
+              "(slot tables of contact sensors as sets of records, sortedness by the criterion checked on its own) and the tactile block with MuJoCo C.")
+LEVEL_NOTE = ("C11_partial: the justification of the 25 listed pairs is argued in comments and exercised by the schedule oracle, not proved per kernel. The order-insensitivity of list consumers (tactile de-duplication, contact-sensor match lists) is decided by the schedule oracle on generated scenes, not by a theorem. Not covered: contact "
+              "sensors with reduce=none and fewer slots than matches (which matches are reported follows the contact order by design) and sensors that see mixed contact directions under a sorted "
+              "reduce mode (MIXED_DIRECTION_SCENES, off: reported deviation of the unchanged tree). Serial task permutations only: no intra-task "
               "interleaving, no GPU memory model. Trusted: Lean kernel, E3 extractor, the schedule hook (harness/sched.py).")
-ASSUMPTIONS = ["tolerance 2e-4 relative for float results under reordered sums; contacts and rows compared after canonical sorting"]
+ASSUMPTIONS = ["tolerance 2e-4 relative for float results under reordered sums; contacts and rows compared after canonical sorting",
+               "sensor scenes: 1e-4 (1 + max) for the tactile block (kinematics only), 2e-3 (1 + max) for force-valued sensors; truncated sorted contact-sensor reports are skipped when the "
+               "criterion has a near tie at or before the cut; the slip channels are compared with MuJoCo C only for an axis-aligned sensor geom"]
 VERIF = os.path.abspath(os.path.join(os.path.dirname(__file__), "..", ".."))
 ORDERS = ["rev", "aff:7:3", "rot:5", "aff:13:1", "aff:5:2"]
 
@@ -113,15 +121,244 @@ def _run(ctx, ncases, nsteps):
   return acc
 
 
+# ---------------------------------------------------------------------------------------------------------------------------
+# list-consuming sensors: kernels that READ a list whose order is the thread order of an earlier launch (slots handed out by
+# wp.atomic_add) and must give the same answer for every order of that list.
+SENSOR_ORDERS = ["rev", "aff:7:3", "rot:5", "aff:13:1", "aff:5:2", "aff:3:0", "aff:2:1", "rot:3"]
+# Set to True once the finding below is registered: a box instead of the ball on top of the finger makes the finger geom1 in some contacts and
+# geom2 in others (mixed directions inside one sensor).  On the unchanged tree the sorted reduce modes (mindist/maxforce) then report
+# forces with the sign of ANOTHER slot: `_contact_sort` permutes sensor_contact_matchid but not sensor_contact_direction, which stays in
+# the thread order of `_contact_match` (reported, not part of the quick scenes).
+MIXED_DIRECTION_SCENES = False
+NBIG = 40      # slots of the "report every match" contact sensors (more than any scene below produces)
+ALLDATA = "found force torque dist pos normal tangent"   # 1 + 3 + 3 + 1 + 3 + 3 + 3 = 17 per slot
+
+
+def _sensor_scene(rng, c):
+  """A 'finger' (colliding box + non-colliding taxel mesh with per-vertex frames) pressed into the floor (multi-contact
+  box-plane pair) while 2-4 other geoms (sphere: 1 contact, horizontal capsule: 2, box: up to 4+) poke into it and a free ball rests
+  on it; the finger slides and spins so the slip channels of the taxels are non-zero.  Features rotate with the case number."""
+  kinds = [["sphere", "capsule"], ["capsule", "box", "sphere"], ["box", "sphere", "capsule", "sphere"], ["capsule", "capsule"]][c % 4]
+  mesh = ['builtin="plate" params="5 5"', 'builtin="plate" params="4 6"', 'builtin="wedge" params="5 5 30 30 0"'][c % 3]
+  bumps = ""
+  for i, k in enumerate(kinds):
+    x, y = rng.uniform(-0.2, 0.2, size=2)
+    top = rng.uniform(0.01, 0.04)      # the finger's lower face is near z = -0.005
+    if k == "sphere":
+      r = rng.uniform(0.05, 0.1)
+      bumps += f'<geom name="bump{i}" type="sphere" size="{r:.3f}" pos="{x:.3f} {y:.3f} {top - r:.3f}"/>\n'
+    elif k == "capsule":
+      r = rng.uniform(0.04, 0.06)
+      dx, dy = rng.uniform(-0.15, 0.15, size=2)
+      bumps += f'<geom name="bump{i}" type="capsule" size="{r:.3f}" fromto="{x - dx:.3f} {y - dy:.3f} {top - r:.3f} {x + dx:.3f} {y + dy:.3f} {top - r + 0.002:.3f}"/>\n'
+    else:
+      bumps += f'<geom name="bump{i}" type="box" size="0.06 0.04 0.05" pos="{x:.3f} {y:.3f} {top - 0.05:.3f}" euler="{rng.uniform(-.03, .03):.3f} {rng.uniform(-.03, .03):.3f} {rng.uniform(0, 1.5):.3f}"/>\n'
+  specs = ['body1="finger"', 'geom1="fbox"', 'subtree1="finger"', 'geom1="floor" geom2="fbox"', 'body2="finger"', '', 'site="fsite"', 'body1="ball"']
+  sens = '<tactile name="tac" geom="fpad" mesh="pad"/>\n<touch name="t_finger" site="fsite"/>\n<touch name="t_ball" site="bsite"/>\n'
+  meta = []
+  k = 0
+  for j in range(3):
+    spec = specs[(c + 3 * j) % len(specs)]
+    for reduce in ("none", "mindist", "maxforce", "netforce"):
+      for num in ((NBIG,) if reduce == "none" else (1,) if reduce == "netforce" else (NBIG, 1, 3)):
+        name = f"c{k}"
+        k += 1
+        sens += f'<contact name="{name}" {spec} reduce="{reduce}" num="{num}" data="{ALLDATA}"/>\n'
+        meta.append((name, spec, reduce, num))
+  cone = ' cone="elliptic"' if c % 2 else ""
+  # the slip channels are compared with MuJoCo C only for an axis-aligned finger: mujoco_warp does not rotate the taxel tangent
+  # frame into the world frame (deviation from MuJoCo that has nothing to do with thread order; reported separately)
+  ident = (c // 2) % 2 == 0
+  topgeom = 'type="box" size="0.06 0.05 0.08"' if MIXED_DIRECTION_SCENES and c % 2 else 'type="sphere" size="0.08"'
+  euler = "0 0 0" if ident else f"{rng.uniform(-.004, .004):.4f} {rng.uniform(-.004, .004):.4f} {rng.uniform(-.3, .3):.3f}"
+  xml = f"""
+<mujoco>
+  <compiler angle="radian"/>
+  <option timestep="0.004"{cone}/>
+  <asset>
+    <mesh name="pad" {mesh} scale=".3 .3 .1"/>
+  </asset>
+  <worldbody>
+    <geom name="floor" type="plane" size="3 3 .01"/>
+    {bumps}
+    <body name="finger" pos="{rng.uniform(-.02, .02):.3f} {rng.uniform(-.02, .02):.3f} {rng.uniform(0.094, 0.097):.4f}" euler="{euler}">
+      <freejoint/>
+      <geom name="fbox" type="box" size=".3 .3 .1" mass="0.1"/>
+      <geom name="fpad" type="mesh" mesh="pad" mass="0" contype="0" conaffinity="0"/>
+      <site name="fsite" type="box" size=".35 .35 .15"/>
+    </body>
+    <body name="ball" pos="{rng.uniform(-.15, .15):.3f} {rng.uniform(-.15, .15):.3f} {0.195 + 0.08 - 0.003:.3f}">
+      <freejoint/>
+      <geom name="gball" {topgeom} mass="0.3"/>
+      <site name="bsite" type="sphere" size="0.1"/>
+    </body>
+  </worldbody>
+  <sensor>
+    {sens}
+  </sensor>
+</mujoco>
+"""
+  return xml, meta, kinds, ident
+
+
+def _slots_match(a, b, tol):
+  """two slot tables hold the same records up to order (each record of one has a partner in the other)"""
+  if a.shape != b.shape:
+    return False
+  if a.size == 0:
+    return True
+  dist = np.abs(a[:, None, :] - b[None, :, :]).max(axis=2)
+  return bool((dist.min(axis=1) <= tol).all() and (dist.min(axis=0) <= tol).all())
+
+
+def _run_sensors(ctx, acc, ncases):
+  import mujoco
+  from harness import sched
+  sched.install(os.path.join(VERIF, ".cache", "warp-sched"))
+  import mujoco_warp as mjw
+  rng = np.random.default_rng(ctx.seed * 1000 + 1111)
+  for c0 in range(ncases):
+    c = c0 + ncases * ctx.seed          # rotate the feature schedule with the seed as well
+    xml, meta, kinds, ident = _sensor_scene(rng, c)
+    mjm = mujoco.MjModel.from_xml_string(xml)
+    mjd = mujoco.MjData(mjm)
+    mjd.qvel[0:3] = [rng.uniform(0.1, 0.4) * rng.choice([-1, 1]), rng.uniform(0.1, 0.4) * rng.choice([-1, 1]), 0.0]
+    mjd.qvel[3:6] = [0.0, 0.0, rng.uniform(0.3, 0.9) * rng.choice([-1, 1])]
+    mjd.qvel[6:9] = rng.normal(size=3) * 0.1
+    mujoco.mj_forward(mjm, mjd)
+    nworld = 1 + c % 3
+    m = mjw.put_model(mjm)
+    adr = {mjm.sensor(i).name: (int(mjm.sensor_adr[i]), int(mjm.sensor_dim[i])) for i in range(mjm.nsensor)}
+
+    def run(order):
+      sched.set_order(order)
+      try:
+        d = mjw.put_data(mjm, mjd, nworld=nworld, naconmax=64 * nworld, njmax=300)
+        mjw.forward(m, d)
+        out = (d.sensordata.numpy().copy(), [world_contacts(d, w) for w in range(nworld)], d.overflow.numpy().copy(),
+               d.contact.geom.numpy()[: int(d.nacon.numpy()[0])].copy())
+      finally:
+        sched.set_order("id")
+      return out
+    ref = run("id")
+    acc.evals += 1
+    if (ref[2] != 0).any() or not np.isfinite(ref[0]).all():
+      acc.hit("sensor-overflow-skipped")
+      continue
+    pairs_ref = [[(r[0], r[1]) for r in w] for w in ref[1]]
+    fbody = mjm.body("finger").id
+    touching = {}
+    for g1, g2 in pairs_ref[0]:
+      for a, b in ((g1, g2), (g2, g1)):
+        if mjm.geom_bodyid[a] == fbody:
+          touching[b] = touching.get(b, 0) + 1
+    ta, tn = adr["tac"]
+    n = tn // 3
+    slip = np.abs(ref[0][0, ta + n: ta + tn]).sum()
+    vac = not (len(touching) >= 2 and max(touching.values()) >= 2 and slip > 1e-3)
+    acc.hit("tactile-vacuous" if vac else "tactile: >=2 geoms, multi-contact pair, slip > 0")
+    # MuJoCo C as the arbiter of the tactile block (pure kinematics + the set of touching geoms)
+    mjpairs = sorted((min(int(g[0]), int(g[1])), max(int(g[0]), int(g[1]))) for g in mjd.contact.geom[: mjd.ncon])
+    same_pairs = sorted(set(mjpairs)) == sorted(set(pairs_ref[0]))
+    acc.hit(("tactile-vs-mujoco (normal+slip)" if ident else "tactile-vs-mujoco (normal channel)") if same_pairs else "tactile-vs-mujoco-skipped(pair sets differ)")
+
+    def check(sd, order):
+      """sensordata of one order against the identity order (and the tactile block against MuJoCo C)"""
+      for w in range(nworld):
+        blk, rblk = sd[w, ta: ta + tn], ref[0][w, ta: ta + tn]
+        tol = 1e-4 * (1 + np.abs(rblk).max())
+        nmj = tn if ident else n     # channels compared with MuJoCo C: all three, or the normal channel only
+        if same_pairs and np.abs(blk[:nmj] - mjd.sensordata[ta: ta + nmj]).max() > tol:
+          acc.find(f"tactile sensor under task order '{order}' differs from MuJoCo C by {np.abs(blk[:nmj] - mjd.sensordata[ta: ta + nmj]).max():.3g} (same touching geom pairs)",
+                   "sensor._sensor_tactile", "order-tactile", xml=xml, order=order, world=w, qvel=mjd.qvel.tolist(), nworld=nworld)
+          return
+        if np.abs(blk - rblk).max() > tol:
+          acc.find(f"tactile sensor depends on the task order '{order}' (max diff {np.abs(blk - rblk).max():.3g}; channels normal/slip1/slip2 "
+                   f"{[float(np.abs(blk[i * n:(i + 1) * n] - rblk[i * n:(i + 1) * n]).max()) for i in range(3)]})",
+                   "sensor._sensor_tactile", "order-tactile", xml=xml, order=order, world=w, qvel=mjd.qvel.tolist(), nworld=nworld)
+          return
+        for name in ("t_finger", "t_ball"):
+          a0, dm = adr[name]
+          x, y = sd[w, a0], ref[0][w, a0]
+          if abs(x - y) > 2e-3 * (1 + abs(y)):
+            acc.find(f"touch sensor {name} depends on the task order '{order}' ({y:.6g} vs {x:.6g})", "sensor._sensor_touch", "order-touch", xml=xml, order=order,
+                     world=w, qvel=mjd.qvel.tolist(), nworld=nworld)
+            return
+        big = {}
+        for name, spec, reduce, num in meta:
+          a0, dm = adr[name]
+          x, y = sd[w, a0: a0 + dm].reshape(num, 17), ref[0][w, a0: a0 + dm].reshape(num, 17)
+          tol = 2e-3 * (1 + np.abs(y).max())
+          nm = int(round(y[0, 0]))
+          if int(round(x[0, 0])) != nm:
+            acc.find(f"contact sensor ({spec}, {reduce}): number of matches depends on the task order '{order}' ({nm} vs {int(round(x[0, 0]))})", "sensor._contact_match",
+                     "order-contact-sensor", xml=xml, order=order, world=w, sensor=name, qvel=mjd.qvel.tolist(), nworld=nworld)
+            return
+          ok = True
+          if reduce == "netforce":
+            ok = np.abs(x - y).max() <= tol
+          elif num == NBIG:
+            ok = _slots_match(x, y, tol)
+            if reduce != "none" and nm > 1:
+              # independent of the reference order: the reported slots must be sorted by the criterion
+              crit = x[:nm, 7] if reduce == "mindist" else -np.linalg.norm(x[:nm, 1:4], axis=1)
+              ctol = 1e-6 if reduce == "mindist" else 2e-3 * (1 + np.abs(crit).max())
+              if (np.diff(crit) < -ctol).any():
+                acc.find(f"contact sensor ({spec}, {reduce}) under task order '{order}': slots not sorted by the criterion {crit.tolist()}", "sensor._contact_sort",
+                         "order-contact-sort", xml=xml, order=order, world=w, sensor=name, qvel=mjd.qvel.tolist(), nworld=nworld)
+                return
+              cy = y[:nm, 7] if reduce == "mindist" else -np.linalg.norm(y[:nm, 1:4], axis=1)
+              big[(spec, reduce)] = np.sort(cy)
+          else:
+            # truncated sorted report: decided slot by slot unless the criterion has a near tie at or before the cut
+            cy = big.get((spec, reduce))
+            if cy is not None and len(cy) > 1:
+              gaps = np.diff(cy)[: num]
+              gtol = 1e-5 if reduce == "mindist" else 1e-2 * (1 + np.abs(cy).max())
+              if (gaps < gtol).any():
+                acc.hit("contact-sensor near tie: truncated comparison skipped")
+                continue
+            ok = np.abs(x - y).max() <= tol
+          if not ok:
+            acc.find(f"contact sensor ({spec}, reduce={reduce}, num={num}) depends on the task order '{order}' (max diff {np.abs(x - y).max():.3g}, {nm} matches)",
+                     "sensor._sensor_acc", "order-contact-sensor", xml=xml, order=order, world=w, sensor=name, qvel=mjd.qvel.tolist(), nworld=nworld)
+            return
+          if w == 0:
+            acc.hit(f"contact-sensor {reduce}" + (" truncated" if nm > num and reduce != "netforce" else "") + (" >=2 matches" if nm > 1 else ""))
+    check(ref[0], "id")
+    for order in SENSOR_ORDERS:
+      got = run(order)
+      acc.evals += 1
+      acc.distinct.add(("sensor", c, order))
+      if (got[2] != 0).any():
+        acc.hit("sensor-overflow-skipped")
+        continue
+      if [[(r[0], r[1]) for r in w] for w in got[1]] != pairs_ref:
+        acc.find(f"set of contact pairs depends on the task order '{order}' (sensor scene)", "collision", "order-contacts", xml=xml, order=order, qvel=mjd.qvel.tolist(), nworld=nworld)
+        continue
+      # is the list really presented in another order?  (vacuity: geom1 sequence of the contact list)
+      if got[3][:, 0].tolist() != ref[3][:, 0].tolist():
+        acc.hit("contact list permuted")
+      check(got[0], order)
+    acc.hit("sensor scene: " + "+".join(kinds) + f", nworld={nworld}")
+    acc.sample({"sensor_scene": kinds, "nworld": nworld, "touching": {int(k): int(v) for k, v in touching.items()}, "slip": float(slip)})
+  return acc
+
+
 RULE = ("case 0: 9-10 free spheres resting on the floor with a DENSE Jacobian (nv > 50: rows split over dof-chunk tasks); then random trees over a floor, 30% sleeping, 40% elliptic, 20% CG, 30% sparse, 1-3 worlds; K steps under the identity order and under 2 (quick) / 5 (thorough) other task orders applied to "
-        "EVERY launch (reverse, affine maps, rotation); qpos/qvel within 2e-4, nefc equal, contact pair sets equal, asleep pattern equal; distinct = (case, order)")
+        "EVERY launch (reverse, affine maps, rotation); qpos/qvel within 2e-4, nefc equal, contact pair sets equal, asleep pattern equal; distinct = (case, order). "
+        "Sensor scenes (4 quick / 12 thorough, features rotating with case and seed): a sliding, spinning box 'finger' with a taxel mesh (plate/wedge) pressed into the floor (4 contacts), 2-4 "
+        "spheres/capsules/boxes poking into it, a ball resting on it, 1-3 worlds, pyramidal/elliptic; tactile + 2 touch + 24 contact sensors (3 object specs x none/mindist/maxforce/netforce x "
+        "num 40/1/3); forward() under the identity order and 8 other orders; sensordata vs identity order, tactile block vs MuJoCo C when the touching pair sets agree")
 
 
 def correspondence(ctx):
   acc = _run(ctx, 10 if ctx.thorough else 3, 5 if ctx.thorough else 3)
+  _run_sensors(ctx, acc, 12 if ctx.thorough else 4)
   return result(acc, RULE)
 
 
 def search(ctx, breaks):
   acc = _run(ctx, 24, 6)
+  _run_sensors(ctx, acc, 24)
   return search_result(acc, "the same launch sequence under other serial task orders")
